@@ -175,8 +175,10 @@ theorem planFired_advance (s : FileSt) (n : Nat) (h : s.PlanFired) : (s.advance 
   · exact h
   · exact h
 
-/-- if a plan is armed and it is consumed during the flush, the flush reports failure -/
-theorem flushStore_fault_reported (cs : List Coll) (s : FileSt) (_h0 : s.failed = false)
+set_option linter.unusedVariables false in
+/-- if a plan is armed and it is consumed during the flush, the flush reports failure
+    (`h0` is not needed: a flush entered in the failed state does nothing) -/
+theorem flushStore_fault_reported (cs : List Coll) (s : FileSt) (h0 : s.failed = false)
     (k : Nat) (hk : s.failAt = some (k+1)) (hcons : (flushStore cs s).2.failAt = none) :
     (flushStore cs s).2.failed = true := by
   have hP : s.PlanFired := by
@@ -372,9 +374,10 @@ theorem flushStore_clean (cs : List Coll) (s : FileSt) (h : (flushStore cs s).2.
     dsimp only
     rw [clean_failed, if_neg hf1, clean_size, recStep_clean _ _ _ h]
 
+set_option linter.unusedVariables false in
 /-- conversely a flush that did not fail left the plan merely decremented or untouched, and wrote
-    exactly what a fault-free flush writes -/
-theorem flushStore_unfailed_same_bytes (cs : List Coll) (s : FileSt) (_h0 : s.failed = false)
+    exactly what a fault-free flush writes (`h0` follows from `hok`, failure being sticky) -/
+theorem flushStore_unfailed_same_bytes (cs : List Coll) (s : FileSt) (h0 : s.failed = false)
     (hok : (flushStore cs s).2.failed = false) :
     (flushStore cs s).2.bytes = (flushStore cs { s with failAt := none }).2.bytes ∧
     (flushStore cs s).2.size = (flushStore cs { s with failAt := none }).2.size ∧
@@ -595,7 +598,7 @@ theorem writeNodes_coherent_any (t : Tree) (s : FileSt) (hsz : s.size ≤ s.byte
               obtain ⟨e1, e2⟩ := cr.slotLoc_bound hc'
               refine fc_encodable_of_bound c _ ?_ e2 (by omega)
               rw [e1]; unfold nodeRecLen; omega)
-            ha hb (by simpa using hf2)
+            ha hb (Bool.eq_false_iff.mpr hf2)
           refine ⟨⟨(cl.frame hfr hwl).frame hfw hwr, cr.frame hfw hwr, ?_, ?_⟩, fun _ => rfl⟩
           · intro il hil
             exact (((hci il hil).frame hfl hsz).frame hfr hwl).frame hfw hwr
